@@ -882,6 +882,7 @@ type OSSignalCase struct {
 	Pre      []int `json:"pre"`  // non-shutdown signals sent first (numbers from sigTable)
 	Shut     int   `json:"shut"` // 2 SIGINT or 15 SIGTERM
 	Services int   `json:"services"`
+	Second   bool  `json:"second,omitempty"` // a second handler on the default notifier is created after the first
 }
 
 func checkOSSignals(c OSSignalCase) error {
@@ -898,6 +899,17 @@ func checkOSSignals(c OSSignalCase) error {
 	}
 	done := make(chan osutil.ExitCode, 1)
 	go func() { done <- h.Handle(context.Background()) }()
+	// A second handler on the default notifier in the same process (another
+	// component with its own shutdown sequence): both get the signal.
+	var calls2 []int
+	done2 := make(chan osutil.ExitCode, 1)
+	if c.Second {
+		h2 := service.NewSignalHandler(&service.SignalHandlerConfig{Logger: slogutil.NewDiscardLogger(), ShutdownTimeout: time.Second})
+		h2.Add(&svc{id: 100, mu: &mu, calls: &calls2})
+		go func() { done2 <- h2.Handle(context.Background()) }()
+	} else {
+		done2 <- osutil.ExitCodeSuccess
+	}
 	pid := syscall.Getpid()
 	for _, p := range c.Pre {
 		_ = syscall.Kill(pid, sigTable[p].(syscall.Signal))
@@ -916,7 +928,21 @@ func checkOSSignals(c OSSignalCase) error {
 			return fmt.Errorf("real signals %v then %d: Shutdown calls %v, status %d; want %v and success", c.Pre, c.Shut, got, status, want)
 		}
 	case <-time.After(15 * time.Second):
-		return fmt.Errorf("HANG: the process received the signals %v and then the shutdown signal %d, but Handle (default OS notifier) has not reacted within 15 s", c.Pre, c.Shut)
+		return fmt.Errorf("HANG: the process received the signals %v and then the shutdown signal %d, but Handle (default OS notifier) has not reacted within 15 s (a second handler on the default notifier was created afterwards: %v)", c.Pre, c.Shut, c.Second)
+	}
+	select {
+	case status := <-done2:
+		mu.Lock()
+		got := slices.Clone(calls2)
+		mu.Unlock()
+		if c.Second && (!slices.Equal(got, []int{100}) || status != osutil.ExitCodeSuccess) {
+			return fmt.Errorf("second handler on the default notifier: Shutdown calls %v, status %d", got, status)
+		}
+	case <-time.After(15 * time.Second):
+		return fmt.Errorf("HANG: the second handler on the default OS notifier has not reacted to the shutdown signal %d within 15 s", c.Shut)
+	}
+	if c.Second {
+		vp.Class("os-signals:two-handlers-on-the-default-notifier")
 	}
 	vp.Class("os-signals")
 	if len(c.Pre) > 0 {
@@ -934,6 +960,7 @@ var osSignalProp = vp.Register(vp.Prop[OSSignalCase]{
 			Pre:      rapid.SliceOfN(rapid.SampledFrom([]int{10, 12, 28, 17}), 0, 3).Draw(t, "pre"),
 			Shut:     rapid.SampledFrom([]int{2, 15}).Draw(t, "shut"),
 			Services: rapid.IntRange(0, 3).Draw(t, "services"),
+			Second:   rapid.Bool().Draw(t, "second"),
 		}
 	},
 	Check: checkOSSignals,
